@@ -34,7 +34,16 @@ def scaled_timeout(timeout_ms):
 
 
 def discharge(ob, timeout_ms=10000, use_cvc5=True):
-    """-> (status, backend, secs, model_or_None)"""
+    """-> (status, backend, secs, model_or_None).  An `unknown` is retried ONCE with four times the limit: a time-out under machine
+    load must not turn a provable obligation into an undecided one (a decided verdict is never changed by this)"""
+    st, be, secs, model = _discharge_once(ob, timeout_ms, use_cvc5)
+    if st == UNKNOWN:
+        st2, be2, secs2, model2 = _discharge_once(ob, 4 * timeout_ms, use_cvc5)
+        return st2, be2 + ("+retry" if st2 != UNKNOWN else ""), secs + secs2, model2
+    return st, be, secs, model
+
+
+def _discharge_once(ob, timeout_ms=10000, use_cvc5=True):
     timeout_ms = scaled_timeout(timeout_ms)
     t = time.time()
     g = ob.goal
